@@ -37,7 +37,7 @@ def correspond_c20(tier, impl_only=False):
     stats = {"determinism_runs": 0, "determinism_cases": 0, "cli_runs": 0, "cli_rejected": 0, "macro_devices": 0}
     # ---------------- A. determinism: the same inputs in fresh processes (fresh hash seeds)
     runs = []
-    nruns = 6 if thorough else 3
+    nruns = 8 if thorough else 3
     for k in range(nruns):
         impl, model, err = p_gen.run_cases(prop, cases, want_model=(k == 0 and not impl_only))
         if err and impl is None:
@@ -80,7 +80,7 @@ def correspond_c20(tier, impl_only=False):
     d = os.path.join(WORK, prop, "cli")
     shutil.rmtree(d, ignore_errors=True)
     os.makedirs(d)
-    ncli = 60 if thorough else 16
+    ncli = 120 if thorough else 16
     cli_cases = [c for c in cases if c.get("profile") == "cli"]
     rej = [c for c in cli_cases if runs[0].get(c["id"], {}).get("facts", {}).get("outcome") == "error"]
     acc = [c for c in cli_cases if runs[0].get(c["id"], {}).get("facts", {}).get("outcome") == "ok"]
@@ -121,7 +121,7 @@ def correspond_c20(tier, impl_only=False):
     shutil.rmtree(d, ignore_errors=True)
     # ---------------- C. create_device! against the library output (behaviour under recording mocks)
     import p_runtime, rtprobe, random
-    nmac = 16 if thorough else 5
+    nmac = 30 if thorough else 5
     cand = [c for c in acc if not p_runtime.has_cfg(c) and not p_runtime.wo_field(c)][:nmac]
     if cand:
         d = os.path.join(WORK, prop, "macro")
